@@ -181,18 +181,21 @@ Theorem render_longest_name caps caps' fuel msg :
   interp (first_prefix caps') fuel msg = interp (longest caps) fuel msg.
 Proof. intros Hn Hp Hs. apply interp_ext. intros r. now apply first_prefix_is_longest. Qed.
 
-(* ---- sort.Slice(capture, len(name_i) > len(name_j)): modelled by an insertion sort; any sorted permutation will do *)
+(* ---- sort.SliceStable(capture, len(name_i) > len(name_j)): modelled by a STABLE insertion sort (captures whose names
+   have the same length keep their order). For captures with distinct names any sorted permutation will do
+   (first_prefix_is_longest above); when two captures carry the same name -- a regexp may name two groups alike --
+   stability is what makes `$name` the FIRST of them (first_prefix_stable_is_longest below). *)
 Fixpoint insert_len (c : C) (l : list C) : list C :=
   match l with
   | [] => [c]
-  | d :: t => if (length (cname d) <? length (cname c))%nat then c :: d :: t else d :: insert_len c t
+  | d :: t => if (length (cname d) <=? length (cname c))%nat then c :: d :: t else d :: insert_len c t
   end.
 Fixpoint sort_len (l : list C) : list C := match l with [] => [] | c :: t => insert_len c (sort_len t) end.
 
 Lemma insert_len_perm c l : Permutation (c :: l) (insert_len c l).
 Proof.
   induction l as [|d t IH]; cbn [insert_len]; [apply Permutation_refl|].
-  destruct (length (cname d) <? length (cname c))%nat; [apply Permutation_refl|].
+  destruct (length (cname d) <=? length (cname c))%nat; [apply Permutation_refl|].
   eapply Permutation_trans; [apply perm_swap|]. now apply perm_skip.
 Qed.
 
@@ -219,16 +222,89 @@ Lemma insert_len_desc c l : desc l -> desc (insert_len c l).
 Proof.
   induction 1 as [|d t Hd Ht IH]; cbn [insert_len].
   - constructor; [intros ? []|constructor].
-  - destruct (length (cname d) <? length (cname c))%nat eqn:E.
-    + apply Nat.ltb_lt in E. constructor; [|now constructor].
+  - destruct (length (cname d) <=? length (cname c))%nat eqn:E.
+    + apply Nat.leb_le in E. constructor; [|now constructor].
       intros x [<-|Hx]; [lia|]. specialize (Hd x Hx). lia.
-    + apply Nat.ltb_ge in E. constructor; [|exact IH].
+    + apply Nat.leb_gt in E. constructor; [|exact IH].
       intros x Hx. eapply Permutation_in in Hx; [|symmetry; apply insert_len_perm].
       destruct Hx as [<-|Hx]; [lia|now apply Hd].
 Qed.
 
 Lemma sort_len_sorted l : len_sorted (sort_len l).
 Proof. apply desc_len_sorted. induction l as [|c t IH]; cbn [sort_len]; [constructor|now apply insert_len_desc]. Qed.
+
+Lemma sort_len_desc l : desc (sort_len l).
+Proof. induction l as [|c t IH]; cbn [sort_len]; [constructor|now apply insert_len_desc]. Qed.
+
+Lemma first_prefix_In caps rest c : first_prefix caps rest = Some c -> In c caps.
+Proof.
+  induction caps as [|d t IH]; cbn [first_prefix]; [discriminate|].
+  destruct (has_prefixb (cname d) rest); [intros [= <-]; now left|intros H; right; auto].
+Qed.
+
+(* inserting c in front of everything that is not longer: c wins against every later capture of the same length *)
+Lemma first_prefix_insert c l rest :
+  desc l ->
+  first_prefix (insert_len c l) rest =
+  if has_prefixb (cname c) rest then
+    match first_prefix l rest with
+    | Some d => if (length (cname c) <? length (cname d))%nat then Some d else Some c
+    | None => Some c
+    end
+  else first_prefix l rest.
+Proof.
+  induction 1 as [|d t Hd Ht IH]; cbn [insert_len first_prefix].
+  - destruct (has_prefixb (cname c) rest); reflexivity.
+  - destruct (length (cname d) <=? length (cname c))%nat eqn:E; cbn [first_prefix].
+    + apply Nat.leb_le in E. destruct (has_prefixb (cname c) rest); [|reflexivity].
+      destruct (has_prefixb (cname d) rest) eqn:Ed.
+      * replace (length (cname c) <? length (cname d))%nat with false by (symmetry; apply Nat.ltb_ge; lia). reflexivity.
+      * destruct (first_prefix t rest) as [x|] eqn:Ex; [|reflexivity].
+        apply first_prefix_In in Ex. specialize (Hd x Ex).
+        replace (length (cname c) <? length (cname x))%nat with false by (symmetry; apply Nat.ltb_ge; lia). reflexivity.
+    + apply Nat.leb_gt in E. destruct (has_prefixb (cname d) rest) eqn:Ed.
+      * destruct (has_prefixb (cname c) rest); [|reflexivity].
+        replace (length (cname c) <? length (cname d))%nat with true by (symmetry; apply Nat.ltb_lt; lia). reflexivity.
+      * exact IH.
+Qed.
+
+(* the STABLE sort by name length followed by the first prefix hit is the longest-name match with ties resolved in favour
+   of the EARLIER capture -- for ALL capture lists, also with repeated names: `$name` is the first capture of that name *)
+Theorem first_prefix_stable_is_longest caps rest : first_prefix (sort_len caps) rest = longest caps rest.
+Proof.
+  induction caps as [|c t IH]; [reflexivity|].
+  cbn [sort_len longest]. rewrite first_prefix_insert by apply sort_len_desc. rewrite IH. reflexivity.
+Qed.
+
+(* among captures that carry the SAME name the first one is the one a template sees *)
+Lemma longest_first_of_name caps rest c :
+  longest caps rest = Some c ->
+  forall pre d post, caps = pre ++ d :: post -> cname d = cname c ->
+    (forall x, In x pre -> cname x <> cname c) -> c = d.
+Proof.
+  revert c. induction caps as [|e t IH]; intros c; cbn [longest]; [discriminate|].
+  intros H pre d post Hsplit Hname Hpre.
+  pose proof (longest_spec t rest) as Hs.
+  destruct pre as [|p pre]; cbn [app] in Hsplit; injection Hsplit as <- ->.
+  - (* d is the head *)
+    destruct (has_prefixb (cname e) rest) eqn:Ee.
+    + destruct (longest (post) rest) as [d0|] eqn:El.
+      * destruct (length (cname e) <? length (cname d0))%nat eqn:Elt; injection H as <-; [|reflexivity].
+        apply Nat.ltb_lt in Elt. rewrite Hname in Elt. lia.
+      * now injection H as <-.
+    + (* the head does not prefix rest, but c (same name) does: impossible *)
+      destruct (longest post rest) as [d0|]; [|discriminate]. injection H as <-.
+      destruct Hs as (_ & Hp & _). rewrite <- Hname in Hp. congruence.
+  - (* d is further down: the head has another name *)
+    assert (Hne : cname e <> cname c) by (apply Hpre; now left).
+    destruct (has_prefixb (cname e) rest) eqn:Ee.
+    + destruct (longest (pre ++ d :: post) rest) as [d0|] eqn:El.
+      * destruct (length (cname e) <? length (cname d0))%nat eqn:Elt; injection H as <-.
+        -- apply (IH d0 eq_refl pre d post eq_refl Hname). intros x Hx. apply Hpre. now right.
+        -- contradiction.
+      * injection H as <-. contradiction.
+    + apply (IH c H pre d post eq_refl Hname). intros x Hx. apply Hpre. now right.
+Qed.
 
 (* renderMessage: captures sorted by name length, first prefix hit *)
 Definition render (caps : list C) (msg : bytes) : bytes := interp (first_prefix (sort_len caps)) (S (length msg)) msg.
@@ -237,6 +313,10 @@ Definition render_spec (caps : list C) (msg : bytes) : bytes := interp (longest 
 
 Corollary render_is_spec caps msg : NoDup (map cname caps) -> render caps msg = render_spec caps msg.
 Proof. intros Hn. apply render_longest_name; [exact Hn|apply sort_len_perm|apply sort_len_sorted]. Qed.
+
+(* with the stable sort the same holds for ALL capture lists (names may repeat) *)
+Theorem render_is_spec_any caps msg : render caps msg = render_spec caps msg.
+Proof. apply interp_ext. intros r. apply first_prefix_stable_is_longest. Qed.
 
 (* a template without `$` is returned unchanged (the early exit of renderMessage is consistent with the loop) *)
 Lemma interp_no_dollar lookup msg fuel :
